@@ -10,23 +10,23 @@ const (
 	ClientCancelCode = 3
 	ClientPingCode   = 4
 
-	ServerHelloCode        = 0
-	ServerDataCode         = 1
-	ServerExceptionCode    = 2
-	ServerProgressCode     = 3
-	ServerPongCode         = 4
-	ServerEndOfStreamCode  = 5
-	ServerProfileCode      = 6
-	ServerTotalsCode       = 7
-	ServerExtremesCode     = 8
-	ServerLogCode          = 10
-	ServerTableColumnsCode = 11
+	ServerHelloCode         = 0
+	ServerDataCode          = 1
+	ServerExceptionCode     = 2
+	ServerProgressCode      = 3
+	ServerPongCode          = 4
+	ServerEndOfStreamCode   = 5
+	ServerProfileCode       = 6
+	ServerTotalsCode        = 7
+	ServerExtremesCode      = 8
+	ServerLogCode           = 10
+	ServerTableColumnsCode  = 11
 	ServerProfileEventsCode = 14
 )
 
 type ClientHello struct {
-	Name                   string
-	Major, Minor, Revision uint64
+	Name                     string
+	Major, Minor, Revision   uint64
 	Database, User, Password string
 }
 
